@@ -223,6 +223,18 @@ def decorate(behs, rnd, params):
     spec judges them (TReopen: the store is found as left; a refresh during an outage changes nothing)"""
     share = params.get("decorate_share", 0.34)
     out = []
+    # ... and a share of the behaviours is driven through the structs and listeners the wallet binary serves
+    # (grin_wallet_api::Owner / Foreign, the foreign JSON-RPC listener) instead of libwallet::api_impl
+    api_share = params.get("api_share", 0.5)
+    behs2 = []
+    for b in behs:
+        if b and rnd.random() < api_share:
+            if b[0].get("ev") == "setup":
+                b = [dict(b[0], api=True)] + list(b[1:])
+            else:
+                b = [{"ev": "setup", "api": True}] + list(b)
+        behs2.append(b)
+    behs = behs2
     for b in behs:
         if not b or rnd.random() >= share:
             out.append(b)
